@@ -2,6 +2,7 @@
    generated stub of the one and the generated skeleton of the other, connected directly. */
 #include <stdio.h>
 #include <string.h>
+#include <stdint.h>
 #include "cobj.h"
 Object c_impl_new(void); void c_caller(Object target);
 #ifndef NO_CPP
@@ -11,6 +12,34 @@ Object cpp_impl_new(void); void cpp_caller(Object target);
 Object rust_impl_new(void); void rust_caller(Object target);
 #endif
 typedef struct { const char *name; Object (*mk)(void); void (*call)(Object); } Side;
+
+/* the wire spy: sits between a caller's stub and an implementation's skeleton, forwards every
+   invocation unchanged and looks into every data buffer - the input buffers before the call, the
+   output buffers after it - for a word that is one half of an object handle (C03: object handles
+   never travel inside data buffers) */
+static Object spy_inner;
+/* (object-bearing struct values put their object slots between the buffer slots - the known
+   interleaving of C02 - so a slot is only read as a buffer when it is not an object slot) */
+static int spy_is_object_slot(const ObjectArg *s) {
+  uint64_t w; memcpy(&w, s, 8);
+  return cobj_is_handle_word(w) == 2 || (s->o.invoke == NULL && s->o.context == NULL);
+}
+static void spy_scan(const char *dir, ObjectOp op, int slot, const void *p, size_t n) {
+  for (size_t off = 0; p && off + 8 <= n; off += 8) {
+    uint64_t w; memcpy(&w, (const char *)p + off, 8);
+    int kind = cobj_is_handle_word(w);
+    if (kind) printf("wireleak dir=%s op=%d slot=%d off=%d what=%s\n", dir, (int)ObjectOp_methodID(op), slot, (int)off, kind == 1 ? "context" : "invoke");
+  }
+}
+static int32_t spy_invoke(ObjectCxt h, ObjectOp op, ObjectArg *a, ObjectCounts k) {
+  (void)h;
+  if (ObjectOp_isLocal(op)) return Object_invoke(spy_inner, op, a, k);
+  for (size_t i = ObjectCounts_indexBI(k); i < ObjectCounts_indexBI(k) + ObjectCounts_numBI(k); i++) if (!spy_is_object_slot(&a[i])) spy_scan("in", op, (int)i, a[i].bi.ptr, a[i].bi.size);
+  int32_t r = Object_invoke(spy_inner, op, a, k);
+  if (r == Object_OK)
+    for (size_t i = ObjectCounts_indexBO(k); i < ObjectCounts_indexBO(k) + ObjectCounts_numBO(k); i++) if (!spy_is_object_slot(&a[i])) spy_scan("out", op, (int)i, a[i].b.ptr, a[i].b.size);
+  return r;
+}
 int main(int argc, char **argv) {
   Side sides[] = { {"c", c_impl_new, c_caller},
 #ifndef NO_CPP
@@ -26,7 +55,8 @@ int main(int argc, char **argv) {
     if (argc > 2 && (strcmp(argv[1], sides[i].name) || strcmp(argv[2], sides[j].name))) continue;
     printf("pairing %s %s\n", sides[i].name, sides[j].name);
     Object t = sides[j].mk();
-    sides[i].call(t);
+    spy_inner = t;
+    sides[i].call((Object){spy_invoke, NULL});
     Object_release(t);
     printf("end live=%d impls=%d\n", cobj_live(), impls_live());
   }
